@@ -74,7 +74,10 @@ func init() {
 	})
 }
 
-func c12GenN(r interface{ Float64() float64; IntN(int) int }, maxN int) int {
+func c12GenN(r interface {
+	Float64() float64
+	IntN(int) int
+}, maxN int) int {
 	switch r.IntN(4) {
 	case 0:
 		return 2 + r.IntN(20)
@@ -92,7 +95,10 @@ func c12GenN(r interface{ Float64() float64; IntN(int) int }, maxN int) int {
 	}
 }
 
-func c12GenRate(r interface{ Float64() float64; IntN(int) int }, n int) (int, string) {
+func c12GenRate(r interface {
+	Float64() float64
+	IntN(int) int
+}, n int) (int, string) {
 	switch r.IntN(8) {
 	case 0:
 		return 0, "zero"
